@@ -56,6 +56,9 @@ LAYOUT_GRAMMARS = (
     ('pattern-direct', "start = '=' /\\d+/ ';' $ ;", ('·=¦12·;·',)),
     ('pattern-own-rule', "start = '=' num ';' $ ;\nnum = /\\d+/ ;", ('·=·12·;·',)),
     ('constants', "start = a:'a' k:`1` b:'b' s:`x` $ ;", ('·a·b·',)),
+    # whitespace is skipped before a constant: a pattern / upper-case rule right after the constant then starts after the blanks
+    ('constant-before-pattern', "start = '=' k:`1` /\\d+/ $ ;", ('·=·12·',)),
+    ('constant-before-token-rule', "start = '<' `x` W '>' $ ;\nW = /\\d+/ ;", ('·<·12·>·',)),
     ('eof-in-choice', "start = 'a' ($ | 'b' $) ;", ('·a·', '·a·b·')),
     ('closure-of-rule', "start = {item}+ $ ;\nitem = n:/[a-z]+/ ',' ;", ('·ab·,·cd·,·',)),
     ('optional-and-choice', "start = ['let'] id '=' (id | num) $ ;\nid = /[a-z]+/ ;\nnum = /\\d+/ ;", ('·let·x·=·y·', '·x·=·12·')),
